@@ -200,7 +200,7 @@ func checkC16(c *Ctx) {
 	c.Set("rule", "every configuration of the listed Console.tla families (thorough: the full 2M product) x 3 seeded concretisations; every JsonEnc.tla program (Spaced) up to the bound as console context x 2 concretisations")
 }
 
-var conSeps = []string{"", "\t", " | ", "»«", " ", "::"}
+var conSeps = []string{"", "\t", " | ", "»«", " ", "::", "│", "·"}
 
 func replayConsole(b conBeh, seed int64) (finds []Finding) {
 	rng := rand.New(rand.NewSource(seed))
